@@ -23,7 +23,7 @@ type c06 struct{}
 
 func init() {
 	register(c06{})
-	expectedProbes["C06"] = []string{"x-order-tie", "x-order-string", "x-order-non-integer", "name-needs-escaping", "builder-value", "order-checked", "kind:swagger", "kind:schema", "map-order-mattered-nowhere", "more-than-12-ordered-properties", "$schema-keyword"}
+	expectedProbes["C06"] = []string{"x-order-tie", "x-order-string", "x-order-non-integer", "name-needs-escaping", "builder-value", "order-checked", "kind:swagger", "kind:schema", "map-order-mattered-nowhere", "more-than-12-ordered-properties", "$schema-keyword", "x-order-case-twin"}
 }
 
 func (c06) ID() string { return "C06" }
@@ -86,6 +86,10 @@ func genOrderedSchema(r *sim.RNG, depth int, uniq *int) map[string]interface{} {
 			}
 			if xo, ok := xorder(r, ties); ok {
 				c["x-order"] = xo
+				if r.Intn(8) == 0 {
+					// a case twin of the ordering extension: a different key, which must not influence the order
+					c[[]string{"X-Order", "x-Order", "X-ORDER"}[r.Intn(3)]] = float64(r.Intn(60)) - 10
+				}
 			}
 			m[name] = c
 		}
@@ -122,7 +126,12 @@ func genBuilder(r *sim.RNG) []interface{} {
 	for i := 0; i < n; i++ {
 		switch r.Intn(6) {
 		case 0:
-			steps = append(steps, map[string]interface{}{"op": "AddExtension", "name": "x-" + advNames[r.Intn(len(advNames))], "value": advNames[r.Intn(len(advNames))]})
+			name := "x-" + advNames[r.Intn(len(advNames))]
+			if r.Intn(3) == 0 {
+				// keys without the x- prefix are accepted by AddExtension but are not extensions: never emitted
+				name = []string{"description", "type", "title", "foo", "X-Upper", "properties"}[r.Intn(6)]
+			}
+			steps = append(steps, map[string]interface{}{"op": "AddExtension", "name": name, "value": advNames[r.Intn(len(advNames))]})
 		case 1:
 			steps = append(steps, map[string]interface{}{"op": "WithDescription", "desc": advNames[r.Intn(len(advNames))] + "!"})
 		default:
@@ -154,7 +163,9 @@ func runBuilder(steps []interface{}) (*spec.Schema, map[string]interface{}, erro
 		switch st.Op {
 		case "AddExtension":
 			s.AddExtension(st.Name, st.Value)
-			exp[strings.ToLower(st.Name)] = st.Value
+			if strings.HasPrefix(strings.ToLower(st.Name), "x-") {
+				exp[strings.ToLower(st.Name)] = st.Value
+			}
 		case "WithDescription":
 			s.WithDescription(st.Desc)
 			if st.Desc != "" {
@@ -424,6 +435,12 @@ func (c06) Run(sc *Scenario) *Verdict {
 							v.probe("name-needs-escaping")
 						}
 						pm, _ := pv.(map[string]interface{})
+						for ek := range pm {
+							if ek != "x-order" && strings.EqualFold(ek, "x-order") {
+								v.probe("x-order-case-twin")
+								classes["twin"] = true
+							}
+						}
 						xo, has := pm["x-order"]
 						switch t := xo.(type) {
 						case float64:
